@@ -44,6 +44,12 @@ pub struct L2Observed {
 
 /// Run one L2 scenario and return what was observed. `extra_hook` lets callers inject faults.
 pub fn execute(prop: &str, c: &L2Scen, e: &Expect, extra_hook: Option<l2::Hook>, prior_override: Option<&[u8]>) -> Result<L2Observed, String> {
+    execute_on(prop, c, e, extra_hook, prior_override, None)
+}
+
+/// `device`: clone onto this existing path (a real block device the caller has pre-filled) with the production
+/// binary instead of `o.out` in the work directory.
+pub fn execute_on(prop: &str, c: &L2Scen, e: &Expect, extra_hook: Option<l2::Hook>, prior_override: Option<&[u8]>, device: Option<&str>) -> Result<L2Observed, String> {
     let s = &c.scen;
     let dir = worker_dir(prop);
     clean_dir(&dir);
@@ -74,7 +80,9 @@ pub fn execute(prop: &str, c: &L2Scen, e: &Expect, extra_hook: Option<l2::Hook>,
     }
     let prior = prior_override.map(|p| p.to_vec()).or_else(|| e.prior.clone());
     if let Some(p) = &prior {
-        l2::write_file(&dir.join("o.out"), p);
+        if device.is_none() {
+            l2::write_file(&dir.join("o.out"), p);
+        }
         if s.inplace {
             args.push("--seed-output".into());
         } else {
@@ -91,12 +99,18 @@ pub fn execute(prop: &str, c: &L2Scen, e: &Expect, extra_hook: Option<l2::Hook>,
     hook.watch.push("a.cba".into());
     let log = dir.join("hook.log");
     let mut env = vec![];
-    if s.block_dev {
+    if s.block_dev && device.is_none() {
         env.push(("BITA_VERIF_FORCE_BLOCKDEV".to_string(), "1".to_string()));
+    }
+    if let Some(d) = device {
+        hook.watch.push(d.rsplit('/').next().unwrap_or(d).to_string());
     }
     let srv = if c.http { Some(http::Server::start(Arc::new(archive.clone()), http::Script::default())) } else { None };
     let arch_arg = srv.as_ref().map(|s| s.url()).unwrap_or_else(|| "a.cba".to_string());
-    let (run, output) = clone_cli(&dir, &arch_arg, "o.out", &args, stdin, Some((&hook, &log)), s.block_dev, &env);
+    let (run, mut output) = clone_cli(&dir, &arch_arg, device.unwrap_or("o.out"), &args, stdin, Some((&hook, &log)), s.block_dev && device.is_none(), &env);
+    if let Some(d) = device {
+        output = std::fs::read(d).ok();
+    }
     let http_log = srv.as_ref().map(|s| s.requests()).unwrap_or_default();
     drop(srv);
     let events = l2::parse_hook_log(&log);
